@@ -115,6 +115,7 @@ package pair
 //@   ensures list: seqlist(result, kv) == takew(f, old(seqlist(seq, kv)))
 
 //@ func DropWhile
+//@   loops 1
 //@   requires seq != nil ==> !done(seq) && kv(seq) != []
 //@   ensures result != nil ==> !done(result) && kv(result) != []
 //@   ensures list: seqlist(result, kv) == dropw(f, old(seqlist(seq, kv)))
@@ -122,6 +123,7 @@ package pair
 //@   loop 0 decreases len(kv(seq))
 
 //@ func Filter
+//@   loops 1
 //@   requires f != nil
 //@   requires seq != nil ==> !done(seq) && kv(seq) != []
 //@   ensures result != nil ==> !done(result) && kv(result) != []
@@ -144,6 +146,7 @@ package pair
 //@   ensures list: seqlist(result, kv) == old(seqlist(lhs, kv)) ++ old(seqlist(rhs, kv))
 
 //@ func Join
+//@   loops 1
 //@   requires lhs != nil ==> !done(lhs) && kv(lhs) != []
 //@   ensures result != nil ==> !done(result) && kv(result) != []
 //@   ensures list: seqlist(result, kv) == flatmap(rhs, old(seqlist(lhs, kv)))
@@ -154,6 +157,7 @@ package pair
 //@     ensures result != nil ==> fresh(result) && !done(result) && kv(result) == rhsview(rhs, $1, $2)
 
 //@ func ToSeq
+//@   loops 1
 //@   requires lhs != nil ==> !done(lhs) && kv(lhs) != []
 //@   ensures result != nil ==> !done(result) && view(result) != []
 //@   ensures list: seqlist(result) == flatmap(rhs, old(seqlist(lhs, kv)))
@@ -164,6 +168,7 @@ package pair
 //@     ensures result != nil ==> fresh(result) && !done(result) && view(result) == rhsview(rhs, $1, $2)
 
 //@ func FromSeq
+//@   loops 1
 //@   requires lhs != nil ==> !done(lhs) && view(lhs) != []
 //@   ensures result != nil ==> !done(result) && kv(result) != []
 //@   ensures list: seqlist(result, kv) == flatmap(rhs, old(seqlist(lhs)))
@@ -175,6 +180,7 @@ package pair
 
 // ForEach visits the list in order, with matching key and value, and stops at the first error
 //@ func ForEach
+//@   loops 1
 //@   opt calltrace=on
 //@   requires seq != nil ==> !done(seq) && kv(seq) != []
 //@   ensures visits_in_order_until_first_error: calls == evl(f, old(calls), untilerr(f, old(seqlist(seq, kv))))
